@@ -79,6 +79,11 @@ def render(c, cast):
         body = "fn f(s: %s) {\n    let a: []%s = [];\n    append(&'a, %s);\n}\n" % (S, T, v)
     elif pos == "elemassign":
         body = "fn f(s: %s, t0: %s) {\n    let a: []%s = [t0];\n    a[0] = %s;\n}\n" % (S, T, T, v)
+    elif pos == "coalesce":            # the fallback of ?? stands where the optional's inner type is expected
+        body = "fn f(s: %s, o: %s?) {\n    let t: %s = o ?? %s;\n}\n" % (S, T, T, "(s as %s)" % T if cast else "s")
+    elif pos == "catchfallback":       # the fallback value of a catch stands where the result's ok type is expected
+        body = ("fn g(t0: %s) -> str ! %s {\n    return t0;\n}\nfn f(s: %s, t0: %s) {\n    let t: %s = g(t0) catch %s;\n}\n"
+                % (T, T, S, T, T, "(s as %s)" % T if cast else "s"))
     elif pos == "global":
         body = "fn src() -> %s {\n    let z: %s = %s;\n    return z;\n}\nfn f() {\n    let s: %s = src();\n    let t: %s = %s;\n}\n" % (
             S, S, zero(S), S, T, v)
@@ -132,6 +137,12 @@ def run(tier, seed, replay=None):
                          {"case": {k: v for k, v in c.items() if k != "_path"}, "program": render(c, False)})
         elif cs["cls"] in ("CRASH", "HANG", "INCONSISTENT"):
             n_crash += 1
+            # "require the cast" means a diagnostic asking for it; a compiler that dies on the conversion did not judge it
+            o2 = env.compile(c["_path"], typecheck_only=True)
+            if o2["cls"] == "CRASH":
+                chk.fail(c["key"] + "|crash", "the compiler crashes on %s -> %s in position '%s' instead of accepting or "
+                         "requiring the cast: %s" % (c["src"], c["dst"], c["pos"], o2["text"][-300:]),
+                         {"case": {k: v for k, v in c.items() if k != "_path"}, "program": render(c, False)})
         else:
             if c["lossless"]:
                 n_rej_lossless += 1
